@@ -40,7 +40,7 @@ pub fn fol_cfg() -> FolCfg {
     FolCfg {
         preds: vec![("p".into(), 1), ("q".into(), 1), ("r".into(), 2), ("s".into(), 0)],
         gvars: vec!["X".into(), "Y".into(), "Z".into()],
-        ivars: vec!["X".into(), "I".into(), "J".into()],
+        ivars: vec!["X".into(), "I".into(), "J".into(), "X1".into()],
         svars: vec!["S".into()],
         syms: vec!["a".into(), "b".into()],
         fcs: vec![("c".into(), Sort::G), ("n".into(), Sort::I)],
